@@ -269,6 +269,43 @@ func eq2(a, b any) (bool, any, bool) {
 	return r, p, panicked
 }
 
+// reversedTwin: for a list-rooted tree, x holds the elements in order and y in reverse order; both answer
+// every aggregate and text query (whatever a list may remember from those), then x is reversed: now both
+// have the same elements position by position and must be equal in both directions.
+func reversedTwin(a V, st *Stats) error {
+	if a.K != KList || len(a.L) < 2 || a.Depth() > 40 {
+		return nil
+	}
+	rev := V{K: KList, L: make([]V, len(a.L))}
+	for i, e := range a.L {
+		rev.L[len(a.L)-1-i] = e
+	}
+	x, y := Build(a).(at.List), Build(rev).(at.List)
+	for _, l := range []at.List{x, y} {
+		l := l
+		catch(func() { l.Sum() })
+		catch(func() { l.Avg() })
+		catch(func() { l.Prod() })
+		catch(func() { l.Min() })
+		catch(func() { l.Max() })
+		catch(func() { l.IntSum() })
+		catch(func() { _ = l.String() })
+		catch(func() { l.AllNumeric() })
+		catch(func() { l.Contains(1) })
+	}
+	x.Reverse()
+	st.Count("reversed_twin")
+	xy, p1, pan1 := eq2(x, y)
+	yx, p2, pan2 := eq2(y, x)
+	if pan1 || pan2 {
+		return errf("Equals panicked on a reversed list and its twin: %v %v", p1, p2)
+	}
+	if !xy || !yx {
+		return errf("a list that was reversed and a list holding the same elements in that order: x.Equals(y) = %v, y.Equals(x) = %v (both had answered Sum/Avg/Min/Max/String before)\n y = %s", xy, yx, rev.Show())
+	}
+	return nil
+}
+
 func CheckC07(c *C07Case, st *Stats) error {
 	trees := []V{c.A, c.B}
 	if c.C != nil {
@@ -278,6 +315,9 @@ func CheckC07(c *C07Case, st *Stats) error {
 		if v.K != c.A.K || (v.K != KList && v.K != KObject) {
 			return nil // Equals takes a container of the same interface type
 		}
+	}
+	if err := reversedTwin(c.A, st); err != nil {
+		return err
 	}
 	impl := make([]any, len(trees))
 	before := make([]IdentSnap, len(trees))
